@@ -7,8 +7,10 @@ import (
 	"go/parser"
 	"go/printer"
 	"go/token"
+	"go/types"
 	"os"
 	"path/filepath"
+	"sort"
 	"strconv"
 	"strings"
 )
@@ -23,6 +25,8 @@ type Facts struct {
 	AddLoop       string      `json:"add_loop"`       // the dispatch condition in pkg.Add
 	PanicGuard    string      `json:"panic_guard"`    // condition guarding panic("unreachable: function names cannot be changed…")
 	NewNameSource string      `json:"newname_source"` // the candidate-building statements of newName
+	TakenSource   string      `json:"taken_source"`   // body of typesMap.taken
+	ReservedWords []string    `json:"reserved_words"` // go/token keywords, then types.Universe.Names(), of the toolchain this tool is built with
 }
 
 func src(fset *token.FileSet, n ast.Node) string {
@@ -174,7 +178,19 @@ func ExtractFacts(repo string) (*Facts, error) {
 	if err != nil {
 		return nil, err
 	}
+	for t := token.Token(0); t < 512; t++ {
+		if t.IsKeyword() {
+			fs.ReservedWords = append(fs.ReservedWords, t.String())
+		}
+	}
+	sort.Strings(fs.ReservedWords)
+	un := types.Universe.Names()
+	sort.Strings(un)
+	fs.ReservedWords = append(fs.ReservedWords, un...)
 	for _, d := range tf.Decls {
+		if fd, ok := d.(*ast.FuncDecl); ok && fd.Name.Name == "taken" && fd.Body != nil {
+			fs.TakenSource = src(fset, fd.Body)
+		}
 		if fd, ok := d.(*ast.FuncDecl); ok && fd.Name.Name == "newName" {
 			ast.Inspect(fd, func(n ast.Node) bool {
 				if fl, ok := n.(*ast.ForStmt); ok {
